@@ -57,6 +57,16 @@ def run(ctx):
             ok = bool(cs)
             ctx.ob("R1", "%s|lost %s frame -> %s" % (b.short, vn, sink.split("$")[0].split("::")[-2] + "::" + sink.split("$")[0].split("::")[-1]), ok, b.where(),
                    "the %s arm calls the owner's loss sink: %s" % (vn, ok))
+            if ok:
+                # ... for every frame of that kind: no path leaves the arm without passing the sink
+                r_ = b.reachable_from(arm["target"], avoid=set(cs))
+                rets_ = set(b.return_blocks())
+                leak = sorted(x for x in r_ if x not in arm["blocks"] and not b.is_cleanup(x) and (x in rets_ or b.reachable_from(x) & rets_))
+                uncond = arm["target"] in cs or not leak
+                ctx.ob("R1", "%s|every lost %s frame reaches the sink (no narrowing condition)" % (b.short, vn), uncond, b.where(),
+                       "blocks outside the arm reachable without passing the sink: %s — a loss report that is dropped for some frames of this "
+                       "kind (e.g. `if !matches!(frame, MaxData | MaxStreamData ..)`) means those frames are never sent again: a peer blocked "
+                       "on the lost limit update stays blocked for good" % (leak[:6] or "none"))
             if ok and prim:
                 r = reaches(prog, sink, prim, b)
                 ctx.ob("R1", "%s|%s loss sink reaches BufMap::may_loss" % (b.short, vn), r, b.where(), "lost range is re-coloured for retransmission: %s" % r)
